@@ -20,6 +20,13 @@ C09 — property theorems.  Evaluations on separate VMs are safe to run concurre
   cached variants are kept as contrast definitions with counterexamples
   (`C09_contrast_pooled_machines`, `C09_contrast_cached_registry`);
   `registry_hands_out_fresh_or_immutable` checks the hypothesis on the regenerated table.
+* `isolated_results_shared_contexts`, `cancel_reaches_every_run`: several evaluations under ONE context —
+  whether and when a cancellation reaches an evaluation does not depend on what the other evaluations
+  under that context (or any other) do; contrast `C09_contrast_watch_registry` (a process-wide table of
+  watches released by the first run that ends).
+* `config_isolated`, `config_readonly_may_share`: configuration options that edit modules in place
+  (`WithoutGlobal("m.a")`, `WithGlobalOverride("m.a", v)`) reach only the evaluation they configure, because
+  every `DefaultGlobals` call constructs its modules; contrast `C09_contrast_cached_modules`.
 -/
 namespace Risor.C09
 
@@ -335,6 +342,126 @@ example : regRowOK ("object.GoType.GetAttr", "field", "attributesMap", "*object.
 example : machineFresh machineSourceRows 6 "vm.Run" = true
     ∧ machineFresh [("vm.Run", "call:vm.acquireVM"), ("vm.acquireVM", "assert:vmPool.Get()")] 6 "vm.Run" = false := by
   decide
+
+/-! ### several evaluations under one context (Model §5) -/
+
+/-- **Isolated results, shared contexts.**  EVERY schedule of start / eval-loop trip / finish events of
+    any number of evaluations and of cancellations (or expiries) of any number of contexts, with ANY
+    assignment of evaluations to contexts — several evaluations under one context, evaluations that
+    finish while others under the same context still run, evaluations started again under another
+    context.  With one watcher per run (the code as it is; tie `halt_writes_match`) the outcome of
+    evaluation `e` — how many trips it made and the trip at which it saw `halt` set — is its outcome
+    in the schedule that contains only what concerns `e`: its own events and the ends of the
+    contexts it is started under.  Nothing another evaluation does, under the same context or
+    another one, changes whether and when a cancellation reaches `e`. -/
+theorem isolated_results_shared_contexts (evs : List CEv) (e : Nat) :
+    ctxOutcome .perRun evs e = ctxOutcomeAlone .perRun evs e := by
+  have hk : CEv.concerns evs e = keepFor (fun c => evs.contains (.start e c)) e := by
+    funext ev; cases ev <;> rfl
+  have h := crun_sim (fun c => evs.contains (.start e c)) e evs CState.empty CState.empty
+    (crel_empty _ e) (fun c hc => by simpa using hc)
+  simp only [ctxOutcomeAlone, ctxOutcome, hk]
+  rw [h.2.2.1]
+
+/-- **A cancellation reaches every run under the context.**  In any schedule (`pre`) after which `e`
+    runs under context `c`: once `c` is cancelled, whatever else happens afterwards (`mid`: other
+    evaluations under `c` finish, new ones start, other contexts end) short of `e` being started
+    again, the next trip of `e`'s eval loop finds `halt` set. -/
+theorem cancel_reaches_every_run (pre mid : List CEv) (s : CState) (e c : Nat)
+    (hctx : (crun .perRun s pre).ctxOf e = some c) (hns : ∀ c', CEv.start e c' ∉ mid) :
+    (crun .perRun s (pre ++ .cancel c :: (mid ++ [.instr e]))).log e
+      = (crun .perRun s (pre ++ .cancel c :: mid)).log e ++ [1] := by
+  have h1 : (cstep .perRun (crun .perRun s pre) (.cancel c)).halt e = 1 := by
+    simp only [cstep, hctx, ↓reduceIte]
+  have h2 := halt_sticks mid _ e h1 hns
+  have hsplit : pre ++ .cancel c :: (mid ++ [.instr e]) = (pre ++ .cancel c :: mid) ++ [.instr e] := by simp
+  rw [hsplit, crun_append]
+  have hmid : crun .perRun s (pre ++ .cancel c :: mid)
+      = crun .perRun (cstep .perRun (crun .perRun s pre) (.cancel c)) mid := by
+    rw [crun_append]; rfl
+  simp only [crun, cstep, ↓reduceIte]
+  rw [hmid, h2]
+
+/-- the full demand on a process-wide TABLE of context watches (one callback per context, released by
+    the first run under the context that ends) -/
+def C09_full_watch_registry : Prop :=
+  ∀ (evs : List CEv) (e : Nat), ctxOutcome .registry evs e = ctxOutcomeAlone .registry evs e
+
+/-- evaluations 0 and 1 run under context 7; 0 finishes; then the context is cancelled -/
+def registryWitness : List CEv :=
+  [.start 0 7, .start 1 7, .instr 0, .instr 1, .finish 0, .cancel 7, .instr 1, .instr 1]
+
+/-- **Contrast: a table of watches keyed by the context breaks it.**  The end of evaluation 0's run
+    releases the watch of everybody under context 7, so the cancellation never reaches evaluation 1,
+    which alone under the same context is halted at its second trip. -/
+theorem C09_contrast_watch_registry : ¬ C09_full_watch_registry := by
+  intro h
+  have := h registryWitness 1
+  revert this
+  decide
+
+/-- with per-run watchers the same schedule halts evaluation 1, and an evaluation under ANOTHER context
+    is left alone (the model is not trivial) -/
+example : ctxOutcome .perRun registryWitness 1 = { loads := 3, halted := some 1 }
+    ∧ ctxOutcome .registry registryWitness 1 = { loads := 3, halted := none }
+    ∧ ctxOutcome .perRun [.start 0 7, .start 1 8, .cancel 7, .instr 0, .instr 1] 1 = { loads := 1, halted := none } := by
+  refine ⟨by decide, by decide, by decide⟩
+
+/-- every writer of a machine's `halt` flag is a method of that machine, the only store of 1 is the
+    goroutine `start` parks on the run's context, and the flag's address goes nowhere else: the
+    reviewed table (tie `halt_writes_match`) is an instance of `perRun` -/
+theorem halt_written_per_run : haltWriteRows.all haltRowOK = true
+    ∧ haltRowOK ("vm.VirtualMachine.start", "escapes:watchContext", "&vm.halt") = false
+    ∧ haltRowOK ("vm.watchContext$func", "atomic.StoreInt32", "1") = false := by decide
+
+/-! ### configurations and the standard library (Model §6) -/
+
+/-- **Isolated results, configurations.**  EVERY schedule of `DefaultGlobals` calls, in-place module edits
+    made by configuration options (`WithoutGlobal("m.a")`, `WithGlobalOverride("m.a", v)`) and attribute
+    reads by scripts, of any number of evaluations, for every attribute `a` of every module `m`: when
+    every `DefaultGlobals` call constructs its modules (the code as it is; tie `lib_vars_match`), what
+    evaluation `e` finds in `m.a`, read after read, is what it finds when only its own configuration
+    and reads happen. -/
+theorem config_isolated (evs : List GEv) (e m a : Nat) :
+    attrSeen .fresh evs e m a = attrSeenAlone .fresh evs e m a := by
+  simp only [attrSeenAlone, attrSeen, filterMap_toR_filter]
+  exact isolated_results_resources _ e
+
+/-- module objects may be shared under ANY policy (built once and handed to every Config) as long as no
+    configuration edits them in place: schedules without `deny` / `override` events -/
+theorem config_readonly_may_share (p : Policy) (evs : List GEv) (e m a : Nat)
+    (hro : ∀ ev ∈ evs, ev.isEdit = false) : attrSeen p evs e m a = attrSeenAlone p evs e m a := by
+  simp only [attrSeenAlone, attrSeen, filterMap_toR_filter]
+  apply shared_immutable_isolated
+  intro r hr
+  obtain ⟨ev, hev, hto⟩ := List.mem_filterMap.1 hr
+  exact toR_isWr m a ev r hto (hro ev hev)
+
+/-- the full demand on a standard library whose module objects are built once and handed to every Config -/
+def C09_full_cached_modules : Prop :=
+  ∀ (evs : List GEv) (e m a : Nat), attrSeen .cached evs e m a = attrSeenAlone .cached evs e m a
+
+/-- **Contrast: cached module objects break it.**  Evaluation 0 is configured without `m3.a1`; evaluation 1,
+    with no such option, no longer finds the attribute (1 = removed; alone: 0 = as built) -/
+theorem C09_contrast_cached_modules : ¬ C09_full_cached_modules := by
+  intro h
+  have := h [.build 0, .build 1, .deny 0 3 1, .use 1 3 1] 1 3 1
+  revert this
+  decide
+
+/-- the model distinguishes the cases (and an override of a removed attribute is refused, as
+    `Module.Override` refuses it) -/
+example : attrSeen .fresh [.build 0, .build 1, .deny 0 3 1, .use 1 3 1, .use 0 3 1] 1 3 1 = [0]
+    ∧ attrSeen .fresh [.build 0, .build 1, .deny 0 3 1, .use 1 3 1, .use 0 3 1] 0 3 1 = [1]
+    ∧ attrSeen .fresh [.build 0, .deny 0 3 1, .override 0 3 1 5, .override 0 2 0 5, .use 0 3 1] 0 3 1 = [1]
+    ∧ attrSeen .fresh [.build 0, .override 0 2 0 5, .use 0 2 0, .use 0 2 1] 0 2 0 = [7]
+    ∧ attrSeen .cached [.build 0, .build 1, .override 0 2 0 5, .use 1 2 0] 1 2 0 = [7] := by
+  refine ⟨by decide, by decide, by decide, by decide, by decide⟩
+
+/-- no package-level variable of the root package or of a standard-library module package is ever
+    written (the reviewed table, tie `lib_vars_match`): nothing `DefaultGlobals` builds can be kept
+    there between two calls -/
+theorem lib_has_no_mutable_state : libVarRows.all (fun r => r.2.2.isEmpty) = true := by decide
 
 /-! ### non-vacuity -/
 
